@@ -56,7 +56,16 @@ def corpus():
         mk("D-P-T", "id,id", "sw 1 2;sw 0 1;st 1 x 7;st 0 x 9;rd 0 x"),
         # prototype life cycle
         mk("same-P", "rejneg,id", "sw 1 2;sw 0 1;st 2 x 4;st 0 x -1;st 0 x 6;st 2 x 5;dl 0 x;st 2 x 8;sw 0 3;st 3 x 9"),
+        # the 100-step recursion limit of setattr_delegate / base_trait: chains of 99, 100, 101 deferring levels
+        deep_case(99, "D"), deep_case(100, "D"), deep_case(101, "D"), deep_case(100, "P"), deep_case(101, "P"),
     ]
+
+
+def deep_case(n, kind):
+    """n objects deferring `x` to the next one, the last to a typed attribute; wired bottom-up."""
+    ops = ["sw %d %d" % (i, i + 1) for i in reversed(range(n))]
+    ops += ["st 0 x 5", "rd 0 x", "st %d x 6" % n, "dl 0 x", "st 1 x 7", "rd 0 x"]
+    return "dg|-,x=%s:/-,x=T:0:3|%s|id|%s" % (kind, ",".join(["0"] * n + ["1"]), ";".join(ops))
 
 
 def generate(rng, tier):
@@ -96,14 +105,15 @@ def _hit(sig, what, **kw):
 # --------------------------------------------------------------------------------------------
 
 class Oracle:
+    LIMIT = 100      # documented recursion limit of delegation (DelegationError beyond it)
+
     def __init__(self, world):
         self.w = world
-        self.local = {}          # (o, n) -> validated value assigned locally (prototype link broken)
+        self.local = {}          # (o, n) -> value a prototyped attribute was assigned locally (link broken)
         self.hits = []
 
-    def style(self, o, n):
-        a = self.w.spec(o).by_name[n]
-        return {"": "same", }.get(a.raw, "star" if a.raw == "*" else "prefix" if a.raw.endswith("*") else "explicit")
+    def style(self, a):
+        return "same" if a.raw == "" else "star" if a.raw == "*" else "prefix" if a.raw.endswith("*") else "explicit"
 
     def deferring(self):
         for o in range(len(self.w.objs)):
@@ -112,208 +122,173 @@ class Oracle:
                     yield o, a
 
     def target(self, o, a):
-        """(delegate object id | None, documented target name)."""
+        """(current delegate object id | None, documented target name)."""
         return self.w.delegate_of(o), D.doc_target(a, a.name, self.w.spec(o))
 
-    def base(self, o, n, depth=0):
-        """Documented resolution of the chain below (o, n): the object/attribute that finally holds the value
-        and validates.  None when the chain is incomplete."""
-        if depth > 8:
-            return None
-        a = self.w.spec(o).by_name.get(n)
-        if a is None:
-            return None
-        if a.kind == "T":
-            return (o, n, a)
-        x, t = self.target(o, a)
-        if x is None:
-            return None
-        return self.base(x, t, depth + 1)
+    def chain(self, o, a):
+        """The documented chain below the deferring attribute (o, a): the list of deferring levels
+        [(obj, attrspec)] and how it ends: ('T', obj, attrspec) typed attribute | ('?',) target not declared |
+        ('none',) a delegate is None | ('deep',) longer than the recursion limit."""
+        levels = []
+        cur, b = o, a
+        while True:
+            levels.append((cur, b))
+            if len(levels) > self.LIMIT:
+                return levels, ("deep",)
+            x, t = self.target(cur, b)
+            if x is None:
+                return levels, ("none",)
+            nb = self.w.spec(x).by_name.get(t)
+            if nb is None:
+                return levels, ("?",)
+            if nb.kind == "T":
+                return levels, ("T", x, nb)
+            cur, b = x, nb
 
-    def chain_sig(self, o, a):
-        """(kinds, styles): signature components describing the configuration class of a deferring attribute.
-        Two configuration classes get a name of their own (they are where the known defects live):
-        '*' at a deeper level of a chain whose class prefix differs from the top object's, and DelegatesTo
-        through a PrototypedFrom."""
-        kinds, styles, mismatch = self._chain_sig(o, a)
-        if mismatch:
-            return "star-chain-prefix-mismatch", kinds.split("-")[0]
-        if a.kind == "D" and "P" in kinds.split("-")[1:]:
-            return "through-prototype", styles
-        return kinds, styles
-
-    def _chain_sig(self, o, a):
-        x, t = self.target(o, a)
-        kinds = [a.kind]
-        styles = [self.style(o, a.name)]
-        mismatch = False
+    def cfg(self, o, a):
+        """Configuration class of a deferring attribute, used in signatures; None = outside the statement
+        (target not a declared trait, or deeper than the recursion limit).  Two classes have a name of their
+        own: '*' at a deeper level whose class prefix differs from the top object's, and DelegatesTo through a
+        PrototypedFrom."""
+        levels, end = self.chain(o, a)
+        if end[0] in ("?", "deep"):
+            return None
         top = self.w.spec(o).pfx or ""
-        cur, name, steps = x, t, 0
-        while cur is not None and steps < 6:
-            b = self.w.spec(cur).by_name.get(name)
-            if b is None:
-                kinds.append("?")
-                break
-            kinds.append(b.kind)
-            if b.kind == "T":
-                break
-            styles.append(self.style(cur, name))
-            if self.style(cur, name) == "star" and (self.w.spec(cur).pfx or "") != top:
-                mismatch = True
-            cur, name = self.target(cur, b)
-            steps += 1
-        return "-".join(kinds), "+".join(sorted(set(styles))), mismatch
+        if any(self.style(b) == "star" and (self.w.spec(c).pfx or "") != top for c, b in levels[1:]):
+            return "star-chain-prefix-mismatch"
+        kinds = [b.kind for _, b in levels]
+        if a.kind == "D" and "P" in kinds[1:]:
+            return "through-prototype"
+        kinds = kinds[:4] + (["+"] if len(kinds) > 4 else []) + [end[0]]
+        return "%s:%s" % ("-".join(kinds), "+".join(sorted({self.style(b) for _, b in levels})))
+
+    def hit(self, kind, cfg, what, **kw):
+        if cfg == "star-chain-prefix-mismatch":
+            # every symptom in this configuration class is the one defect (write and read name different attributes)
+            self.hits.append(_hit("deferred-write-wrong-attribute:star-chain-prefix-mismatch",
+                                  "[%s] %s" % (kind, what), **kw))
+        else:
+            self.hits.append(_hit(kind + (":" + cfg if cfg else ""), what, **kw))
 
     # ------------------------------------------------------------------ after every operation
     def check(self, op, exc, before, after, events, oevents, nexc):
-        w, hits = self.w, self.hits
+        w = self.w
         k = op[0]
+        opa = w.spec(op[1]).by_name.get(op[2]) if k != "sw" else None
+        opcfg = self.cfg(op[1], opa) if opa is not None and opa.kind in ("D", "P") else ""
         if sorted(events, key=str) != sorted(oevents, key=str):
-            hits.append(_hit("observe-differs-from-on-trait-change", "observe and on_trait_change handlers saw "
-                             "different events", otc=D.show_events(events), observe=D.show_events(oevents)))
-        # -- a failing operation changes nothing and notifies nobody
-        if exc is not None and k in ("st", "dl"):
+            self.hit("observe-differs-from-on-trait-change", "", "observe and on_trait_change handlers saw different "
+                     "events", otc=D.show_events(events), observe=D.show_events(oevents))
+        # -- a failing assignment / deletion changes nothing and notifies nobody
+        if exc is not None and k in ("st", "dl") and opcfg is not None:
             if before != after:
-                hits.append(_hit("failed-op-changed-state:" + k, "failing %s changed a visible value" % k,
-                                 op=op, before=str(before), after=str(after)))
+                self.hit("failed-op-changed-state:" + k, opcfg, "failing %s changed a visible value" % k,
+                         cells=str(sorted(c for c in after if after[c] != before.get(c))))
             if events:
-                hits.append(_hit("failed-op-notified:" + k, "failing %s notified" % k, events=D.show_events(events)))
-        # -- bookkeeping of broken prototype links, and the write clauses
-        if k == "st" and exc is None:
-            self.check_write(op, before, after)
-        if k == "dl" and exc is None:
-            o, n = op[1], op[2]
-            a = w.spec(o).by_name.get(n)
-            if a is not None and a.kind == "P":
-                self.local.pop((o, n), None)
-        # -- anchored state: local value present iff the prototype link is broken
+                self.hit("failed-op-notified:" + k, opcfg, "failing %s notified" % k, events=D.show_events(events))
+        # -- the write clauses, and the bookkeeping of broken prototype links
+        if k == "st" and exc is None and opa is not None and opa.kind in ("D", "P"):
+            self.check_write(op, opa, opcfg, before, after)
+        if k == "dl" and opa is not None and opa.kind == "P" and (exc is None or not w.local(op[1], op[2])):
+            self.local.pop((op[1], op[2]), None)
         for o, a in self.deferring():
-            has_local = w.local(o, a.name)
+            cfg = self.cfg(o, a)
+            if cfg is None:
+                continue       # outside the statement
+            n = a.name
+            x, t = self.target(o, a)
+            linked = not (a.kind == "P" and (o, n) in self.local)
+            # -- anchored state: a local value is present iff a prototype link is broken
+            has_local = w.local(o, n)
             if a.kind == "D" and has_local:
-                hits.append(_hit("delegates-to-has-local-value", "a DelegatesTo attribute holds a local value",
-                                 obj=o, name=a.name))
-            if a.kind == "P" and has_local != ((o, a.name) in self.local):
-                hits.append(_hit("prototype-link-state", "local value present != link broken by the history",
-                                 obj=o, name=a.name, local=has_local))
-        # -- read-through coherence (every state)
-        for o, a in self.deferring():
-            kinds, styles = self.chain_sig(o, a)
-            if "?" in kinds:
-                continue   # the target is not a declared trait of the delegate: outside the statement
-            x, t = self.target(o, a)
-            mine = after[(o, a.name)]
-            if a.kind == "P" and (o, a.name) in self.local:
-                if mine != self.local[(o, a.name)]:
-                    hits.append(_hit("prototype-not-independent:%s:%s" % (kinds, styles),
-                                     "a locally assigned prototyped attribute changed value without being assigned",
-                                     obj=o, name=a.name, expected=self.local[(o, a.name)], observed=mine))
-                continue
-            if x is None:
-                continue   # no current delegate: the statement says nothing
-            theirs = after.get((x, t))
-            if theirs is None:     # target not declared on the delegate's class: read it directly
-                try:
-                    theirs = w.read(x, t)
-                except Exception as e:
-                    theirs = D.exc_short(e)
-            if mine != theirs:
-                hits.append(_hit("read-through-differs:%s:%s" % (kinds, styles),
-                                 "deferring attribute does not read as the target on the current delegate",
-                                 obj=o, name=a.name, delegate=x, target=t, mine=mine, theirs=theirs))
-        # -- notification: linked -> every change event of the target on the current delegate reaches the
-        #    handlers of the deferring attribute exactly once with the same new value; unlinked -> never
-        for o, a in self.deferring():
-            x, t = self.target(o, a)
+                self.hit("delegates-to-has-local-value", cfg, "a DelegatesTo attribute holds a local value",
+                         obj=o, name=n)
+            if a.kind == "P" and has_local == linked:
+                self.hit("prototype-link-state", cfg, "local value present != link broken by the history",
+                         obj=o, name=n, local=has_local)
+            # -- reads
+            mine = after[(o, n)]
+            if not linked:
+                if mine != self.local[(o, n)]:
+                    self.hit("prototype-not-independent", cfg, "a locally assigned prototyped attribute changed "
+                             "value without being assigned", obj=o, name=n, expected=self.local[(o, n)], observed=mine)
+            elif x is not None and mine != after[(x, t)]:
+                self.hit("read-through-differs", cfg, "deferring attribute does not read as the target on the "
+                         "current delegate", obj=o, name=n, delegate=x, target=t, mine=mine, theirs=after[(x, t)])
+            # -- notification: while linked every change event of the target on the current delegate reaches the
+            #    handlers of the deferring attribute exactly once with the same values; unlinked: never
             if x is None:
                 continue
-            if k in ("st", "dl") and op[1] == o and op[2] == a.name and a.kind == "P":
+            if k in ("st", "dl") and op[1] == o and op[2] == n and a.kind == "P":
                 continue     # the operation assigns / deletes this very attribute: its own event
             if k == "sw" and op[1] == o:
-                continue     # the delegate of o was just re-pointed: no "change of the target" happened
-            kinds, styles = self.chain_sig(o, a)
-            if "?" in kinds:
-                continue
-            src = [e for e in events if e[0] == x and e[1] == t]
-            got = [e for e in events if e[0] == o and e[1] == a.name]
-            linked = not (a.kind == "P" and (o, a.name) in self.local)
-            if (x, t) not in before:
-                continue     # undeclared target: not a trait, never notifies
-            if linked:
-                if sorted((e[2], e[3]) for e in src) != sorted((e[2], e[3]) for e in got):
-                    wild = self.style(o, a.name) in ("prefix", "star")
-                    hooked = w.forwarders(o).get(a.name, "absent")
-                    if not got and src and hooked != x:
-                        sig = "delegate-no-notify:forwarder-%s" % ("absent" if hooked == "absent" else "unhooked")
-                    elif not got and src and wild:
-                        sig = "delegate-no-notify:wildcard-prefix"
-                    elif not got and src:
-                        sig = "delegate-no-notify:%s:%s" % (kinds, styles)
-                    else:
-                        sig = "delegate-notify-differs:%s:%s" % (kinds, styles)
-                    hits.append(_hit(sig, "linked deferring attribute: handler events differ from the change "
-                                     "events of the target on the current delegate", obj=o, name=a.name, delegate=x,
-                                     target=t, target_events=D.show_events(src), own_events=D.show_events(got)))
-            elif got:
-                hits.append(_hit("unlinked-prototype-notified:%s:%s" % (kinds, styles),
-                                 "a prototyped attribute with a local value was notified of a change on the prototype",
-                                 obj=o, name=a.name, own_events=D.show_events(got)))
+                continue     # o.d itself was re-pointed: not a change of the target attribute
+            src = sorted((e[2], e[3]) for e in events if e[0] == x and e[1] == t)
+            got = sorted((e[2], e[3]) for e in events if e[0] == o and e[1] == n)
+            if linked and src != got:
+                hooked = w.forwarders(o).get(n, "absent")
+                if not got and hooked != x:
+                    kind, c = "delegate-no-notify", "forwarder-" + ("absent" if hooked == "absent" else "unhooked")
+                    if cfg == "star-chain-prefix-mismatch":
+                        c = cfg
+                elif not got and self.style(a) in ("prefix", "star"):
+                    kind, c = "delegate-no-notify", "wildcard-prefix"
+                elif not got:
+                    kind, c = "delegate-no-notify", cfg
+                else:
+                    kind, c = "delegate-notify-differs", cfg
+                self.hit(kind, c, "linked deferring attribute: its handler events differ from the change events of "
+                         "the target on the current delegate", obj=o, name=n, delegate=x, target=t,
+                         target_events=str(src), own_events=str(got))
+            if not linked and got:
+                self.hit("unlinked-prototype-notified", cfg, "a prototyped attribute holding a local value was "
+                         "notified of a change on the prototype", obj=o, name=n, own_events=str(got))
 
-    def check_write(self, op, before, after):
-        w, hits = self.w, self.hits
+    def check_write(self, op, a, cfg, before, after):
+        w = self.w
         _, o, n, v = op
-        a = w.spec(o).by_name.get(n)
-        if a is None or a.kind == "T":
+        if a.kind == "P":
+            self.local[(o, n)] = after[(o, n)]
+        if cfg is None:
             return
-        kinds, styles = self.chain_sig(o, a)
         x, t = self.target(o, a)
-        base = self.base(o, n)
-        if "?" in kinds:
-            if a.kind == "P":
-                self.local[(o, n)] = after[(o, n)]
-            return         # the target is not a declared trait of the delegate: outside the statement
-        if base is None:
-            hits.append(_hit("write-succeeded-without-target:%s:%s" % (kinds, styles),
-                             "assignment through a deferring attribute succeeded although the documented chain "
-                             "does not end in a typed attribute", obj=o, name=n))
+        levels, end = self.chain(o, a)
+        if end[0] != "T":
+            self.hit("write-succeeded-without-target", cfg, "assignment through a deferring attribute succeeded "
+                     "although the chain does not end in a typed attribute", obj=o, name=n)
             return
-        bo, bn, ba = base
         try:
-            expected = w.env.pure(ba.vid, w.env.op_index, v)
+            expected = w.env.pure(end[2].vid, w.env.op_index, v)
         except Exception:
-            hits.append(_hit("invalid-value-accepted:%s:%s" % (kinds, styles),
-                             "the target's validator rejects the value but the assignment succeeded",
-                             obj=o, name=n, value=v))
+            self.hit("invalid-value-accepted", cfg, "the target's validator rejects the value but the assignment "
+                     "succeeded", obj=o, name=n, value=v)
             return
         changed = sorted(c for c in after if after[c] != before.get(c))
+        stray = [c for c in changed if after[c] != expected]
         if a.kind == "D":
             # validates against and stores into the delegate only
             if w.local(o, n):
-                hits.append(_hit("delegates-write-stored-locally:%s:%s" % (kinds, styles),
-                                 "DelegatesTo assignment stored a value on the deferring object", obj=o, name=n))
-            theirs = after.get((x, t))
-            if theirs != expected:
-                hits.append(_hit("delegates-write-misses-delegate:%s:%s" % (kinds, styles),
-                                 "after o.n = v the target attribute on the delegate does not hold the validated value",
-                                 obj=o, name=n, delegate=x, target=t, expected=expected, observed=theirs))
-            stray = [c for c in changed if after[c] != expected]
+                self.hit("delegates-write-stored-locally", cfg, "DelegatesTo assignment stored a value on the "
+                         "deferring object", obj=o, name=n)
+            if after[(x, t)] != expected:
+                self.hit("delegates-write-misses-delegate", cfg, "after o.n = v the target attribute on the delegate "
+                         "does not hold the validated value", obj=o, name=n, delegate=x, target=t, expected=expected,
+                         observed=after[(x, t)])
             if stray:
-                hits.append(_hit("delegates-write-stray-change:%s:%s" % (kinds, styles),
-                                 "assignment changed a value that does not mirror the target", cells=str(stray)))
+                self.hit("delegates-write-stray-change", cfg, "assignment changed a value that does not mirror the "
+                         "target", cells=str(stray))
         else:
             # assigned locally, validated by the prototype's trait; the prototype is untouched
-            self.local[(o, n)] = expected
             if after[(o, n)] != expected:
-                hits.append(_hit("prototype-write-wrong-value:%s:%s" % (kinds, styles),
-                                 "after o.n = v the prototyped attribute does not hold the value validated by the "
-                                 "prototype's trait", obj=o, name=n, expected=expected, observed=after[(o, n)]))
-            if x is not None and (x, t) in before and after[(x, t)] != before[(x, t)]:
-                hits.append(_hit("prototype-write-changed-prototype:%s:%s" % (kinds, styles),
-                                 "assigning a prototyped attribute changed the prototype", obj=o, name=n))
-            stray = [c for c in changed if after[c] != expected]
+                self.hit("prototype-write-wrong-value", cfg, "after o.n = v the prototyped attribute does not hold "
+                         "the value validated by the prototype's trait", obj=o, name=n, expected=expected,
+                         observed=after[(o, n)])
+            if after[(x, t)] != before[(x, t)]:
+                self.hit("prototype-write-changed-prototype", cfg, "assigning a prototyped attribute changed the "
+                         "prototype", obj=o, name=n)
             if stray:
-                hits.append(_hit("prototype-write-stray-change:%s:%s" % (kinds, styles),
-                                 "assignment changed a value that does not mirror the assigned attribute",
-                                 cells=str(stray)))
+                self.hit("prototype-write-stray-change", cfg, "assignment changed a value that does not mirror the "
+                         "assigned attribute", cells=str(stray))
 
 
 def run_impl(case):
